@@ -25,6 +25,9 @@ def minImg1 (d : Rat) : Rat := d - (rne d : Rat)
 /-- `ndarray.astype(int)` on a finite value: truncation toward zero. -/
 def truncZ (y : Rat) : Int := if 0 ≤ y then y.floor else -((-y).floor)
 
+/-- `math.ceil` on an exact value. -/
+def ceilZ (x : Rat) : Int := -((-x).floor)
+
 /-- Python's `%` on integers with a positive modulus. -/
 def pmod (a : Int) (n : Nat) : Nat := (a % (n : Int)).toNat
 
